@@ -183,6 +183,19 @@ func memGet(sto *hs.Mem) func(string) ([]byte, bool) {
 	}
 }
 
+// One store per process, emptied before every case: perkeep's
+// blobserver.GetHub keeps every storage that ever received a blob in a global
+// map, so a fresh store per case would never be freed.
+var theStore *hs.Mem
+
+func sharedStore() *hs.Mem {
+	if theStore == nil {
+		theStore = hs.NewMem("c15")
+	}
+	theStore.Restore(nil)
+	return theStore
+}
+
 // runWrite executes one writer case against the real code and returns the
 // first clause that fails (nil if the property holds) and the observed chunk
 // layout (the outcome key).
@@ -192,7 +205,7 @@ func runWrite(data []byte, f frag) (fail *failure, layout string) {
 			fail = &failure{"WriteFileFromReader", "panic|" + normPanic(r), fmt.Sprint(r)}
 		}
 	}()
-	sto := hs.NewMem("w")
+	sto := sharedStore()
 	src := &fragReader{data: data, f: f}
 	ref, err := schema.WriteFileFromReader(ctxbg, sto, "f", src)
 	if err != nil {
